@@ -207,6 +207,8 @@ def tie_histories(rng, count):
         xs = [x for x in allp if x["tag"] == tag]
         rng.shuffle(xs)
         ties += xs[:max(4, count // 12)]
+    # ... and every longitude-zone band of both hemispheres
+    ties += [x for x in allp if x["tag"] == "nlband"]
     count = len(ties)
     out = []
     for i, t in enumerate(ties):
